@@ -192,11 +192,12 @@ def namedtuple_unstructure_factory(
 ) -> UnstructureHook:
     """A hook factory for unstructuring namedtuples, modified for msgspec."""
 
-    if all(
-        converter.get_unstructure_hook(t) in (identity, to_builtins)
-        for t in get_type_hints(type).values()
-    ):
+    hooks = [converter.get_unstructure_hook(t) for t in get_type_hints(type).values()]
+    if all(h == identity for h in hooks):
         return identity
+    if all(h in (identity, to_builtins) for h in hooks):
+        # `to_builtins` converts more than the encoder accepts (e.g. enum dict keys).
+        return to_builtins
 
     return make_hetero_tuple_unstructure_fn(
         type,
